@@ -305,6 +305,22 @@ def cbcDecryptCalls {β : Type} (xor : β → β → β) (D : β → β) : CbcSt
   | _, [] => []
   | s, cs :: rest => (cbcDecryptCall xor D s cs).1 ++ cbcDecryptCalls xor D (cbcDecryptCall xor D s cs).2 rest
 
+/-- what a use of the object ends in: `set_key` (if called), `set_iv` (if called), then `encrypt` -/
+inductive CbcUse where
+  | ok
+  | keySize   -- `set_key`: invalid_argument "Invalid key size"
+  | ivSize    -- `set_iv`: invalid_argument "Invalid IV size"
+  | noKey     -- `check()`: "attempt to use cbc without key"
+  | noIv      -- `check()`: "attempt to use cbc without initial vector set"
+deriving DecidableEq, Repr
+
+def cbcUse (bits : Nat) (key iv : Option Bytes) : CbcUse :=
+  if (match key with | some k => k.length != Gen.cbcKeySize bits | none => false) then .keySize
+  else if (match iv with | some v => v.length != Gen.cbcIvSize | none => false) then .ivSize
+  else if key.isNone then .noKey
+  else if iv.isNone then .noIv
+  else .ok
+
 def xorBytes (a b : Bytes) : Bytes := List.zipWith (· ^^^ ·) a b
 
 /-! ## `key::set_hex` -/
